@@ -1052,6 +1052,21 @@ func GenC18(seed, index uint64, build string) *Run {
 			stream = append(stream, r.Bytes(32)...)
 		}
 	}
+	// a long run of rejected blocks (0 or n) somewhere in the stream: the retry
+	// loop has to keep drawing however long the run is
+	if r.P(0.15) {
+		k := 1 + r.N(20)
+		var runb []byte
+		for i := 0; i < k; i++ {
+			if r.P(0.5) {
+				runb = append(runb, make([]byte, 32)...)
+			} else {
+				runb = append(runb, be32(model.N)...)
+			}
+		}
+		at := 32 * r.N(len(stream)/32+1)
+		stream = append(append(append([]byte{}, stream[:at]...), runb...), stream[at:]...)
+	}
 	if r.P(0.2) && len(stream) > 0 {
 		stream = stream[:len(stream)-1-r.N(min(31, len(stream)))]
 	}
